@@ -954,7 +954,12 @@ impl<'b> InnerBucket<'b> {
             self.put_leaf(Leaf::Bucket(name, meta))?;
         }
 
-        let root = self.nodes[self.page_node_ids[&self.meta.root_page] as usize].clone();
+        let root = match self.page_node_ids.get(&self.meta.root_page) {
+            Some(node_id) => self.nodes[*node_id as usize].clone(),
+            // The root page was promoted when its parent collapsed during rebalancing and was
+            // never loaded into a node, so it is still a valid, unmodified page as it is.
+            None => return Ok(self.meta),
+        };
         let mut root = root.borrow_mut();
         let page_id = root
             .spill(self, tx_freelist, None)?
